@@ -8,3 +8,4 @@ package mangos
 func verifMsgNew(*Message, int) {}
 func verifMsgFree(*Message)     {}
 func verifMsgClone(*Message)    {}
+func verifMsgDup(*Message)      {}
